@@ -487,16 +487,42 @@ Lemma in_cands x : In x (hl_cands p) <->
   In x (hl_off p) \/ In x (ep_comp p DW) \/ In x (ep_comp p DE).
 Proof. unfold hl_cands. rewrite !in_app_iff. tauto. Qed.
 
+Lemma spec_targets_king bd s : spec_targets bd KING s = king_targets s.
+Proof. reflexivity. Qed.
+
+Lemma hl_king_eq : hl_king p = to_list k0 (N.ldiff (bb_of (king_targets k0)) (occ_word b c)).
+Proof. reflexivity. Qed.
+
+Lemma king_list_in x k : k < 64 -> In x (to_list k (N.ldiff (bb_of (king_targets k)) (occ_word b c))) ->
+  exists to, In to (king_targets k) /\ to < 64 /\ free_or_enemy b c to = true /\ x = mk_code k to NORMAL PT_NONE.
+Proof.
+  intros K1 Hx. apply (to_list_in k _ x (ldiff_lt _ _ (bb_of_lt _ (king_targets_lt k)))) in Hx as [to [Hb Ex]].
+  rewrite N.ldiff_spec, bb_of_testbit in Hb. apply andb_true_iff in Hb as [Hb1 Hb2].
+  apply existsb_eqb_In in Hb1. apply negb_true_iff in Hb2. pose proof (king_targets_lt _ _ Hb1) as Hto.
+  exists to. repeat split; try assumption. now apply own_or_not.
+Qed.
+
+Lemma king_list_intro x k to : k < 64 -> In to (king_targets k) -> free_or_enemy b c to = true ->
+  x = mk_code k to NORMAL PT_NONE -> In x (to_list k (N.ldiff (bb_of (king_targets k)) (occ_word b c))).
+Proof.
+  intros K1 Ht Hf Ex. apply (to_list_in k _ x (ldiff_lt _ _ (bb_of_lt _ (king_targets_lt k)))). exists to. split; [|exact Ex].
+  pose proof (king_targets_lt _ _ Ht) as Hto.
+  rewrite N.ldiff_spec, bb_of_testbit. apply andb_true_iff. split; [now apply existsb_eqb_In|].
+  apply negb_true_iff. now apply not_own.
+Qed.
+
+Lemma king_step_pseudo k to : k < 64 -> at_ b k = mk_piece c KING -> In to (king_targets k) -> free_or_enemy b c to = true ->
+  In (mkmv k to NORMAL 3) (pseudo p) /\ mk_code k to NORMAL PT_NONE = code (mkmv k to NORMAL 3) /\ valid_mv (mkmv k to NORMAL 3).
+Proof.
+  intros K1 K2 Ht Hf. rewrite <- (spec_targets_king b k) in Ht. now apply (piece_cand KING k to K1 (or_intror eq_refl) K2 Ht Hf).
+Qed.
+
 Lemma snd_king x : In x (hl_king p) -> lg x = true -> exists m, In m (pseudo p) /\ is_legal p m = true.
 Proof.
-  intros Hx Hl. destruct (king_facts p Hlegal) as (K1 & K2 & K3).
-  pose proof (legal_wfp p Hlegal) as Hw. pose proof (wf_stm p Hw) as Hc.
-  (* king *)
-    unfold hl_king in Hx. apply (to_list_in k0 _ x (ldiff_lt _ _ (bb_of_lt _ (king_targets_lt k0)))) in Hx as [to [Hb ->]].
-    rewrite N.ldiff_spec, bb_of_testbit in Hb. apply andb_true_iff in Hb as [Hb1 Hb2].
-    apply existsb_eqb_In in Hb1. apply negb_true_iff in Hb2. pose proof (king_targets_lt _ _ Hb1) as Hto.
-    destruct (piece_cand KING k0 to K1 (or_intror eq_refl) K2 Hb1 (own_or_not to Hto Hb2)) as (P1 & P2 & P3).
-    exists (mkmv k0 to NORMAL 3). split; [exact P1|]. now rewrite <- (lg_code _ P3), <- P2.
+  intros Hx Hl. destruct (king_facts p Hlegal) as (K1 & K2 & K3). rewrite hl_king_eq in Hx.
+  destruct (king_list_in x _ K1 Hx) as (to & Ht & Hto & Hf & Ex).
+  destruct (king_step_pseudo _ to K1 K2 Ht Hf) as (P1 & P2 & P3).
+  eexists. split; [exact P1|]. rewrite <- (lg_code _ P3), <- P2, <- Ex. exact Hl.
 Qed.
 
 Lemma snd_double x : In x (double_list p) -> lg x = true -> exists m, In m (pseudo p) /\ is_legal p m = true.
